@@ -54,6 +54,7 @@ Qed.
 (* ------------------------------------------------------------------ one basic structure *)
 Section WithOracles.
 Variable hr hp : Z -> bool.
+Variable mtail : bool.
 
 Definition strip (c : cova) : cova :=
   {| cv_type := cv_type c; cv_param := cv_param c; cv_ranges := cv_ranges c; cv_rotmat := cv_rotmat c; cv_sill := [] |}.
@@ -149,7 +150,7 @@ Qed.
 (* ------------------------------------------------------------------ whole Model *)
 Definition wf_Model (o : model) : Prop :=
   wf_dbl (md_field o) /\ Forall (wf_cova (md_ndim o) (md_nvar o)) (md_covs o) /\
-  (if null (md_drifts o) then lenZ (md_means o) = md_nvar o /\ Forall wf_dbl (md_means o)
+  (if null (md_drifts o) || mtail then lenZ (md_means o) = md_nvar o /\ Forall wf_dbl (md_means o) /\ 0 < md_nvar o
    else md_means o = repeat d0 (Z.to_nat (md_nvar o))) /\
   lenZ (md_covar0 o) = md_nvar o /\ Forall (fun row => lenZ row = md_nvar o /\ Forall wf_dbl row) (md_covar0 o).
 
@@ -171,7 +172,13 @@ Proof.
   induction 1 as [|c cs Hc _ IH]; simpl; auto. rewrite IH, Hc. destruct c; reflexivity.
 Qed.
 
-Lemma Model_reads o : wf_Model o -> reads (deser_Model hr hp) (ser_Model o) o.
+Lemma reads_then_ret {A B} (r : reader A) (f : A -> B) rs a b :
+  reads r rs a -> f a = b -> reads (bind r (fun x => ret (f x))) rs b.
+Proof.
+  intros H <-. rewrite <- (app_nil_r rs). eapply reads_bind; [exact H | apply reads_ret].
+Qed.
+
+Lemma Model_reads o : wf_Model o -> reads (deser_Model hr hp mtail) (ser_Model mtail o) o.
 Proof.
   destruct o as [ndim nvar field covs drifts means covar0]. unfold wf_Model.
   cbn [md_ndim md_nvar md_field md_covs md_drifts md_means md_covar0].
@@ -181,20 +188,37 @@ Proof.
   eapply reads_bind.
   { apply reads_rrepZ_map; auto. intros c Hc. apply reads_cova with (nvar := nvar). rewrite Forall_forall in Hcovs; auto. }
   eapply reads_bind; [rewrite map_as_flat_map; apply reads_rrepZ; [reflexivity | intros x _; apply reads_str]|].
-  eapply reads_bind with (a := means).
-  { destruct drifts as [|d ds]; cbn [null] in *.
-    - destruct Hmeans as [Hl Hw]. change (lenZ [] <=? 0) with true. cbv iota. apply reads_dbl_list_t; auto.
+  eapply reads_bind with (a := if null drifts then means else repeat d0 (Z.to_nat nvar)).
+  { destruct drifts as [|d ds]; cbn [null orb] in *.
+    - destruct Hmeans as (Hl & Hw & _). change (lenZ [] <=? 0) with true. cbv iota. apply reads_dbl_list_t; auto.
     - assert (E : (lenZ (d :: ds) <=? 0) = false) by (apply Z.leb_gt; unfold lenZ; simpl; lia).
-      rewrite E, Hmeans. apply reads_ret. }
+      rewrite E. apply reads_ret. }
   eapply reads_bind with (a := map cv_sill covs).
   { apply reads_rrepZ_map; auto. intros c Hc. unfold ser_sill. apply reads_com_r.
     rewrite Forall_forall in Hcovs. destruct (Hcovs _ Hc) as (_ & _ & _ & Hsl & Hsr & _). apply reads_rows; auto. }
   eapply reads_bind; [apply reads_rows; auto|].
-  apply reads_ret_com_eq. f_equal. apply rebuild_covs.
-  apply Forall_forall. intros c Hc. rewrite Forall_forall in Hcovs. destruct (Hcovs _ Hc) as (_ & _ & _ & _ & _ & Hs). exact Hs.
+  apply reads_com_l.
+  assert (Hcov : map
+      (fun cs : cova * list (list dbl) =>
+       {| cv_type := cv_type (fst cs); cv_param := cv_param (fst cs); cv_ranges := cv_ranges (fst cs);
+          cv_rotmat := cv_rotmat (fst cs); cv_sill := symm (snd cs) |}) (combine (map strip covs) (map cv_sill covs)) = covs).
+  { apply rebuild_covs. apply Forall_forall. intros c Hc. rewrite Forall_forall in Hcovs.
+    destruct (Hcovs _ Hc) as (_ & _ & _ & _ & _ & Hs). exact Hs. }
+  change (fun c : cova => strip c) with strip.
+  destruct drifts as [|d ds]; cbn [null negb orb andb] in *.
+  - rewrite andb_false_r. change (0 <? lenZ []) with false. rewrite andb_false_r. cbn [app]. rd. rewrite Hcov. reflexivity.
+  - assert (E : (0 <? lenZ (d :: ds)) = true) by (apply Z.ltb_lt; unfold lenZ; simpl length; lia).
+    rewrite E, !andb_true_r. destruct mtail.
+    + destruct Hmeans as (Hl & Hw & Hpos).
+      assert (Hmne : means <> []). { intro K. subst means. unfold lenZ in Hl. simpl in Hl. lia. }
+      destruct means as [|m0 ms]; [congruence|].
+      eapply reads_then_ret with (a := m0 :: ms).
+      * apply reads_not_eod; [reflexivity|]. apply reads_dbl_list_t; auto.
+      * rewrite Hcov. reflexivity.
+    + rewrite Hcov, Hmeans. apply reads_ret_eq. reflexivity.
 Qed.
 
-Lemma good_Model o : forallb good_word (md_drifts o) = true -> forallb good_rec (ser_Model o) = true.
+Lemma good_Model o : forallb good_word (md_drifts o) = true -> forallb good_rec (ser_Model mtail o) = true.
 Proof.
   intros Hd. unfold ser_Model. good.
   - apply forallb_flat_map_true. intros c _. unfold ser_cova. good.
